@@ -434,6 +434,11 @@ fn validate(ctx: &Context<impl Channel>) -> Result<(), Error> {
     if circ.max_reg_count > MAX_COUNT || ctx.num_inputs > MAX_COUNT {
         return Err(CircuitError::MaxCircuitSizeExceeded.into());
     }
+    // `Circuit::validate()` computes the highest register as `max_reg_count - 1` with a saturating
+    // subtraction: without any register it would still accept register 0 and index its empty flags.
+    if circ.max_reg_count == 0 && !circ.insts.is_empty() {
+        return Err(CircuitError::InvalidInst(0).into());
+    }
     circ.validate()?;
     let Some(expected_inputs) = circ.input_regs.get(p_own) else {
         return Err(Error::PartyDoesNotExist);
